@@ -285,10 +285,10 @@ def denE (ev : Expr → R) : CExpr → R
   | .mk h t => denT ev (denA ev h) t
 def denT (ev : Expr → R) : R → CTail → R
   | acc, .nil => acc
-  | acc, .cons .and a t => denT ev (andR acc (denA ev a)) t
-  | acc, .cons .or a t => orR acc (denT ev (denA ev a) t)
+  | acc, .cons .and _ a t => denT ev (andR acc (denA ev a)) t
+  | acc, .cons .or _ a t => orR acc (denT ev (denA ev a) t)
 def denA (ev : Expr → R) : CAtom → R
-  | .mk n p => if n then notR (denP ev p) else denP ev p
+  | .mk n p => if n.isSome then notR (denP ev p) else denP ev p
 def denP (ev : Expr → R) : CPrim → R
   | .leaf l => ev (leafExpr l)
   | .paren e => denE ev e
@@ -310,7 +310,7 @@ theorem astE_ok : ∀ c : CExpr, ∃ e, astE c = some e ∧ ∀ ev : Expr → R,
 theorem astT_ok : ∀ t : CTail, ∃ items : List Item, astT t = some (tailToks items) ∧ items.length = tailLen t ∧
     ∀ ev : Expr → R, Hom ev → ∀ acc, dnf ev acc items = denT ev acc t
   | .nil => ⟨[], rfl, rfl, fun _ _ _ => rfl⟩
-  | .cons o a t => by
+  | .cons o sp a t => by
     obtain ⟨b, hb, hvb⟩ := astA_ok a
     obtain ⟨items, ht, hlen, hvt⟩ := astT_ok t
     refine ⟨(o, b) :: items, ?_, ?_, ?_⟩
@@ -324,7 +324,7 @@ theorem astA_ok : ∀ a : CAtom, ∃ b : Atom, astA a = some (atomToks b) ∧
     ∀ ev : Expr → R, Hom ev → atomVal ev b = denA ev a
   | .mk n p => by
     obtain ⟨e, he, hv⟩ := astP_ok p
-    refine ⟨⟨n, e⟩, ?_, ?_⟩
+    refine ⟨⟨n.isSome, e⟩, ?_, ?_⟩
     · simp only [astA, he, atomToks]
     · intro ev hev
       simp only [atomVal, denA, hv ev hev]
@@ -364,10 +364,10 @@ theorem C02_precedence (c : CExpr) :
 
 /-- every spelling of an operator is the same CST node (`parse_expr` reads `as_rule()` only) -/
 theorem C02_spelling (r : Str) :
-    bopTok ("and".toList ++ r) = some (.and, r) ∧ bopTok ("AND".toList ++ r) = some (.and, r) ∧
-    bopTok ("&&".toList ++ r) = some (.and, r) ∧ bopTok ("or".toList ++ r) = some (.or, r) ∧
-    bopTok ("OR".toList ++ r) = some (.or, r) ∧ bopTok ("||".toList ++ r) = some (.or, r) ∧
-    negTok ("not".toList ++ r) = some r ∧ negTok ("!".toList ++ r) = some r :=
+    bopTok ("and".toList ++ r) = some (.and, "and".toList, r) ∧ bopTok ("AND".toList ++ r) = some (.and, "AND".toList, r) ∧
+    bopTok ("&&".toList ++ r) = some (.and, "&&".toList, r) ∧ bopTok ("or".toList ++ r) = some (.or, "or".toList, r) ∧
+    bopTok ("OR".toList ++ r) = some (.or, "OR".toList, r) ∧ bopTok ("||".toList ++ r) = some (.or, "||".toList, r) ∧
+    negTok ("not".toList ++ r) = some ("not".toList, r) ∧ negTok ("!".toList ++ r) = some ("!".toList, r) :=
   ⟨rfl, rfl, rfl, rfl, rfl, rfl, rfl, rfl⟩
 
 
